@@ -103,7 +103,60 @@ def defects(n, ind, side, kind):
     return out, text
 
 
+def two_list_defects(n, ind1, ind2, kind):
+    """Two second-side lists over the same n agents with different orders and
+    different tie patterns (ranks must not bleed from one list into another)."""
+    import numpy as np
+    from matchingproblems.solver.solver import Solver
+    l1 = perm(n)
+    l2 = l1[::-1]
+    res = [np.array([1, 2]) for _ in range(n)]
+    zeros = [np.array([0, 0]) for _ in range(n)]
+    try:
+        if kind == 2:
+            from matchingproblems.generator.generator_ha_sm_hr import Generator_ha_sm_hr
+            text = Generator_ha_sm_hr().create_instance(
+                n, 2, res, zeros, [np.array(l1), np.array(l2)],
+                [np.array(ind1), np.array(ind2)], [0, 0], [n, n], "info\n")
+        else:
+            from matchingproblems.generator.generator_spa import Generator_spa
+            text = Generator_spa().create_instance(
+                n, 2, 2, res, zeros, [1, 2], [0, 0], [n, n],
+                [np.array(l1), np.array(l2)], [np.array(ind1), np.array(ind2)],
+                [0, 0], [n, n], [n, n], "info\n")
+    except Exception as e:     # noqa
+        return ["writer-exc:" + lprun.exc_fingerprint(e)], None
+    path = lprun.inst_file(text, "ties2.txt")
+    try:
+        with lprun._Quiet():
+            S = Solver(["-f", path, "-na", str(kind), "-twopl"])
+    except Exception as e:     # noqa
+        return ["reader-exc:" + lprun.exc_fingerprint(e)], text
+    want = {}
+    for h, (lst, ind) in enumerate(((l1, ind1), (l2, ind2))):
+        for gi, g in enumerate(expected_groups(lst, ind)):
+            for x in g:
+                want[(x, h + 1)] = gi + 1
+    got = {(p.studentID, p.projectID): p.rank_lecturer for row in S.model.pairs for p in row}
+    return ([] if got == want else ["reader-ranks-two-lists"]), text
+
+
 def work(item, tally):
+    if item[0] == "two":
+        _, n, kind = item
+        for ind1 in itertools.product((0, 1), repeat=n):
+            for ind2 in itertools.product((0, 1), repeat=n):
+                tally.inc("evaluations")
+                tally.inc("nontrivial")
+                d, text = two_list_defects(n, ind1, ind2, kind)
+                if d:
+                    tally.violation({"n": n, "indicators": [list(ind1), list(ind2)], "two": True,
+                                     "kind": kind, "file": text,
+                                     "fingerprint": ",".join(sorted(d)),
+                                     "what": "two second-side lists over %d agents with tie "
+                                             "indicators %r / %r (%d-agent file): %s" % (
+                                                 n, ind1, ind2, kind, d)})
+        return
     n, side, kind = item
     for ind in itertools.product((0, 1), repeat=n):
         tally.inc("evaluations")
@@ -124,13 +177,16 @@ def main(tier):
     t0 = time.time()
     N = 11 if tier == "quick" else 14
     items = [(n, side, kind) for n in range(N, 0, -1) for side in (1, 2) for kind in (2, 3)]
+    N2 = 4 if tier == "quick" else 6
+    items += [("two", n, kind) for n in range(N2, 1, -1) for kind in (2, 3)]
     tally = pool.run(work, items, chunksize=1)
     c = tally.c
     coverage = {
         "evaluations": c.get("evaluations", 0),
         "distinct_nontrivial": c.get("nontrivial", 0),
         "rule": "list length n<=%d x all 2^n tie-indicator vectors x {first,second side} x "
-                "{2-agent,3-agent file}; real create_string_pref -> real create_instance -> real "
+                "{2-agent,3-agent file}, plus two second-side lists over the same agents with all pairs of "
+                "tie vectors (n<=4; thorough 6); real create_string_pref -> real create_instance -> real "
                 "Solver; non-trivial = vector with at least one effective tie" % N,
         "samples": tally.samples,
         "exhaustive": True,
@@ -143,7 +199,11 @@ def main(tier):
 def replay(path):
     with open(path) as f:
         p = json.load(f)
-    d, text = defects(p["n"], tuple(p["indicators"]), p["side"], p["kind"])
+    if p.get("two"):
+        d, text = two_list_defects(p["n"], tuple(p["indicators"][0]), tuple(p["indicators"][1]),
+                                   p["kind"])
+    else:
+        d, text = defects(p["n"], tuple(p["indicators"]), p["side"], p["kind"])
     print(text)
     print(d)
     print("REPRODUCED" if d else "NOT REPRODUCED")
